@@ -529,6 +529,25 @@ func checkC03(e *Env) {
 	})
 
 	// the concurrent flavour of this monitor (C12 is the full treatment)
+	// identity is not equality: an ACCEPTED sentence becomes garbage and a wrong-checksum sentence
+	// of the same byte length takes over its address
+	reusePairs, reuseHits := e.addressReuse(drv, "C03", e.pick(4, 24), 60, func(r *rng.R, k int) (plan.Op, plan.Op, bool) {
+		lang := r.Intn(ref.NLang)
+		w := e.Model.Words(r.Bytes(ref.EntSizes[r.Intn(5)]), lang)
+		bad := append([]string(nil), w...)
+		i, j := r.Intn(len(w)), r.Intn(len(w))
+		bad[i], bad[j] = bad[j], bad[i]
+		if _, st, _ := e.Model.Dec(bad, lang); st == ref.OK {
+			return plan.Op{}, plan.Op{}, false
+		}
+		return plan.Op{Fn: "chk", L: int64(lang), S: hxs(strings.Join(w, " "))}, plan.Op{Fn: []string{"chk", "val"}[k%2], L: int64(lang), S: hxs(strings.Join(bad, " "))}, true
+	}, func(ops []plan.Op, i int, r *plan.Res, reused bool) {
+		if acceptedBy(&ops[i], r) {
+			e.Violate(&Violation{What: fmt.Sprintf("%s accepted a wrong-checksum %s sentence that was validated right after an accepted sentence of the same byte length whose memory it took over (address reused: %v): %s", fnName(ops[i].Fn), ref.Names[ops[i].L], reused, preview(ops[i].Str())),
+				Ops: ops[:i+1], ChildEnv: []string{"GOMAXPROCS=1"}, Expected: "rejected", Observed: r, Detail: "the failing call is the last of ops; the preceding ones are its history"})
+		}
+	})
+	notJudged.Add("pairs_validated_at_a_reused_address(of "+itoa(reusePairs)+")", reuseHits)
 	concCalls := e.concurrentSmoke(drv, "C03", e.smokePool("C03", "chk"), e.pick(2, 12), e.pick(300, 1500), e.smokeAcceptedValid())
 
 	// accept-set sizes per (language, word count)
